@@ -206,7 +206,8 @@ def fwd_grad_chooser(g, ans, x, axis=None, keepdims=False):
         if isinstance(axis, int):
             ans = anp.expand_dims(ans, axis)
         elif isinstance(axis, tuple):
-            for ax in sorted(axis):
+            # re-insert the reduced axes in increasing order of their (non-negative) position
+            for ax in sorted(a % anp.ndim(x) for a in axis):
                 ans = anp.expand_dims(ans, ax)
     chosen_locations = x == ans
     return anp.sum((g * chosen_locations), axis=axis, keepdims=keepdims) / anp.sum(
